@@ -8,7 +8,7 @@ open Lean SparseV SparseV.Levels
 
 namespace DriverOps
 
-def jKind (j : Json) : R LevelFormat := do
+def jKind20 (j : Json) : R LevelFormat := do
   match j with
   | Json.str "dense" => pure .dense
   | Json.str "compressed" => pure .compressed
@@ -21,7 +21,7 @@ def kindJ : LevelFormat → Json
 /-- level: [kind, nonOrdered, nonUnique, soa] -/
 def jLevel (j : Json) : R Level := do
   let a ← j.getArr?
-  pure { fmt := ← jKind (← arg a 0),
+  pure { fmt := ← jKind20 (← arg a 0),
          props := { nonOrdered := ← jBool (← arg a 1), nonUnique := ← jBool (← arg a 2), soa := ← jBool (← arg a 3) } }
 
 def levelJ (l : Level) : Json :=
@@ -132,7 +132,7 @@ def c20 (op : String) (a : Array Json) : R (Option Json) := do
     let arrs ← jList (jList jNat) (← arg a 3); let vals ← jList jInt (← arg a 4)
     pure (some (okJ (listJ (fun e => Json.arr #[listJ natJ e.1, intJ e.2]) (entries f shape arrs vals 0))))
   | "c20_fields" =>
-    let ls ← jList jKind (← arg a 1)
+    let ls ← jList jKind20 (← arg a 1)
     pure (some (okJ (listJ Json.str (fieldNames ls 0 0))))
   | "c20_levels" =>
     let fac ← (← arg a 1).getStr?; let n ← jNat (← arg a 2); let canonical ← jBool (← arg a 3)
